@@ -11,11 +11,13 @@ OBLIGATIONS = ['C15.translate_origin', 'C15.translate_fixes_einf', 'C15.translat
                'C15.translation_commutes_with_inner', 'C15.translation_commutes_with_outer', 'C15.translation_fixes_scalars',
                'C15.direction_element_invariant', 'C15.round_location_recovered',
                'C15.coded_vector_inner_blade', 'C15.coded_blade_inner_vector', 'C15.coded_vector_wedge_blade', 'C15.coded_blade_wedge_vector', 'C15.vectors_are_directions',
-               'C15.dualflat_is_orthogonal_to_einf', 'C15.dualflat_undual']
+               'C15.dualflat_is_orthogonal_to_einf', 'C15.dualflat_undual',
+               'C15.coded_inner_is_vdot', 'C15.coded_inner_is_dotv', 'C15.coded_outer_is_vwedge', 'C15.coded_outer_is_wedgev',
+]
 PARTIAL = ['the floating-point == 0 tests, grade bookkeeping / class aliases and the error branches have no Lean theorem: '
            'decided by evaluation on the implementation',
-           'the abstract identities write v|X, X|v, v^X, X^v by the half-sum formulas; these are proved for the coded tables (coded_*), and joined to the abstract '
-           'statements on paper (no composite theorem through the model of the conformalised layout)']
+           'the abstract identities write v|X, X|v, v^X, X^v by the half-sum forms; these forms are proved EQUAL to the coded inner / outer products on (vector, homogeneous) '
+           'operands (coded_inner_is_vdot ... coded_outer_is_wedgev); the homogeneity of the operands - the precondition of classify - stays a hypothesis']
 RULE = ("conformalised Cl(2), Cl(3), Cl(4); direction blades of every grade 0..n built as outer products of integer vectors with any sign and dyadic scale; dyadic locations "
         "and radii (real and imaginary); every category (Direction, Tangent, Round, Flat, DualFlat). Non-trivial = direction of grade >= 1; distinct = distinct (n, category, parameters)")
 ASSUMPTIONS = ["tolerance 1e-9 relative to the magnitude of the blade"]
